@@ -340,6 +340,18 @@ def run(ck):
           "the probe walks Router::routes (every method that has a tree)" if walks else
           "the loop that fills the Allow list does not walk Router::routes: a method whose routes match but which the loop does not visit "
           "is missing from Allow (or the answer degrades to 404)")
+    # ... and is decided by the one matcher: the probe asks SegmentTreeNode::findRoute, the routine that serves requests -- a second
+    # tree walk written for the probe can disagree with it (optional segments, wildcards, backtracking) and then Allow names methods
+    # that would not match, or omits some that would
+    FR = N + "findRoute"
+    in_loop = [x for x in bf.events("call") if inner_ is not None and x.block in inner_[1]]
+    asks_fr = [x for x in in_loop if (x.get("callee") or "") == FR and not x.get("inlined")]
+    other_walks = sorted({(x.get("callee") or "") for x in in_loop if (x.get("ccls") or "") == N.rstrip(":") and (x.get("callee") or "") != FR
+                          and (x.get("callee") or "").rsplit("::", 1)[-1] not in ("sanitizeResource", "getSegmentType")})
+    ck.ob("C10-R3", "route/allow-probe-uses-findRoute", bool(asks_fr) and not other_walks, e.loc, bf,
+          "the probe calls SegmentTreeNode::findRoute" if asks_fr and not other_walks else
+          "the probe decides with %s instead of (only) SegmentTreeNode::findRoute: a second matcher that can disagree with the one that serves "
+          "requests" % (", ".join(x.replace("Pistache::Rest::", "") for x in other_walks) or "something else"), structural=True)
     ck.ob("C10-R3", "route/allow-list-construction", ok_skip and ok_match, e.loc, bf,
           "pushed only for a method other than the request's (%s) whose tree returns a route (%s)" % (ok_skip, ok_match))
     # the terminal route handler is invoked with the bindings of the lookup
